@@ -10,6 +10,8 @@
  *     A <Call> [arg]         grant the application thread one step that begins the call
  *                            (Init | SetThreaded v | Enable v | Conf | Close | Start | Log m | Fini)
  *     A                      grant the application thread one step inside its current call
+ *     A! <Call> [arg]        begin the call and keep granting the application thread until it returned
+ *                            (directed scenarios that must not depend on how many steps a call has)
  *     W                      grant the logging thread one step
  * The real logging thread and one application thread run the real code, but each blocks at every
  * hook point (QB_VP_LOGT_* via qb_verif_hook_fn, plus one point inside this harness's target logger)
@@ -29,9 +31,11 @@
  * 512000 - n*recordsize to logt_memory_used through the pointer the P_LOCKED hook carries, so the real
  * comparison against 512000 trips after n queued records.  `mem` is reported net of that offset.
  *
- * FREE-RUNNING histories (first line `Free`): no hook function, no scheduler; the main thread is the
- * producer/controller and the logging thread runs freely.  Lines: the calls above without the thread
- * id, and  Burst <n> <len> <gap_us> | Hold | Release | Slow <us> | Sleep <us>.
+ * FREE-RUNNING histories (first line `Free`): no scheduler; the main thread is the producer/controller
+ * and the logging thread runs freely, except that `Hold` keeps it from starting its next sem_wait
+ * (where it holds no lock) until `Release`, and `Slow <us>` delays it there, so that a backlog can
+ * build up to the real 512000-byte limit.  Lines: the calls above without the thread id, and
+ * Burst <n> <len> <gap_us> | Hold | Release | Slow <us> | Sleep <us>.
  * Call-level events, serialised by a mutex: Inv [op,arg,size] before a call, Ret [op] [rc] after it,
  * Write [m] from the target's logger, Lost [n] for an "n messages lost" report.
  */
@@ -83,10 +87,6 @@ static void t_logger(int32_t t, struct qb_log_callsite *cs, struct timespec *ts,
 {
 	long seq = (msg && msg[0] == 'm') ? atol(msg + 1) : -1;
 	if (free_mode) {
-		pthread_mutex_lock(&gate_mx);
-		while (gate_closed) pthread_cond_wait(&gate_cv, &gate_mx);
-		pthread_mutex_unlock(&gate_mx);
-		if (slow_us) usleep(slow_us);
 		emit_lock();
 		vt_ev("Write"); vt_i(seq); vt_res(); vt_end();
 		emit_unlock();
@@ -362,12 +362,16 @@ static int run_controlled(char **lines, int n)
 		if (L.n == 0) continue;
 		if (!strcmp(L.tok[0], "Backlog")) { backlog = vt_argi(&L, 1); continue; }
 		if (!strcmp(L.tok[0], "MsgLen")) { msg_len = (int)vt_argi(&L, 1); continue; }
-		int tid = !strcmp(L.tok[0], "A") ? 1 : !strcmp(L.tok[0], "W") ? 2 : 0;
+		int whole = !strcmp(L.tok[0], "A!");	/* begin the call and keep granting A until it has returned */
+		int tid = (whole || !strcmp(L.tok[0], "A")) ? 1 : !strcmp(L.tok[0], "W") ? 2 : 0;
 		if (!tid) { fprintf(stderr, "h_logthread: bad line '%s'\n", lines[i]); return 2; }
 		int op = OP_NONE; long arg = 0;
 		if (L.n > 1) { op = opcode(L.tok[1]); arg = vt_argi(&L, 2); if (op < 0) { fprintf(stderr, "h_logthread: bad call '%s'\n", lines[i]); return 2; } }
 		struct thr *t = &T[tid];
 		__sync_synchronize();
+		/* a thread that is still on its way to its next hook point (the new logging thread right after
+		 * qb_log_thread_start returned) is waited for; one that never gets there has diverged */
+		if (t->status == ST_RUNNING || (tid == 2 && t->status == ST_NONE)) (void)await(tid);
 		int idle = (t->status == ST_PARKED && t->point == VP_IDLE);
 		if (t->status != ST_PARKED || (tid == 1 && (idle != (op != OP_NONE))) || (tid == 2 && op != OP_NONE)) {
 			/* the schedule asks for a step the real thread is not in a position to take */
@@ -386,6 +390,19 @@ static int run_controlled(char **lines, int n)
 			finish_child(0);
 		}
 		emit_step(tid, from, op, arg);
+		for (int k = 0; whole && k < 64 && t->status == ST_PARKED && t->point != VP_IDLE; k++) {
+			from = t->point;
+			memset(&step, 0, sizeof(step));
+			t->op = OP_NONE; t->arg = 0;
+			__sync_synchronize();
+			t->status = ST_RUNNING;
+			sem_post(&t->go);
+			if (await(tid) != 0) {
+				vt_ev("Blocked"); vt_i(tid); vt_i(from); vt_i(0); vt_res(); vt_end();
+				finish_child(0);
+			}
+			emit_step(tid, from, 0, 0);
+		}
 	}
 	finish_child(0);	/* threads may still be parked: the process ends here */
 	return 0;
@@ -411,11 +428,22 @@ static void free_call(int op, long arg, long size)
 	emit_lock(); vt_ev("Ret"); vt_i(op); vt_res(); vt_i(rc); vt_end(); emit_unlock();
 }
 
+/* free mode: the only use of the hooks is to hold the logging thread back where the OS might as well
+ * have descheduled it -- before sem_wait, holding no lock -- so that a backlog can build up */
+static void free_hook(int point, const void *obj, long a, long b)
+{
+	if (point != QB_VP_LOGT_W_WAIT) return;
+	pthread_mutex_lock(&gate_mx);
+	while (gate_closed) pthread_cond_wait(&gate_cv, &gate_mx);
+	pthread_mutex_unlock(&gate_mx);
+	if (slow_us) usleep(slow_us);
+}
+
 static int run_free(char **lines, int n)
 {
 	long seq = 0;
 	free_mode = 1;
-	qb_verif_hook_fn = NULL;
+	qb_verif_hook_fn = free_hook;
 	for (int i = 0; i < n; i++) {
 		struct vt_line L;
 		strncpy(L.raw, lines[i], sizeof(L.raw) - 1); L.raw[sizeof(L.raw) - 1] = 0;
